@@ -53,6 +53,11 @@ func init() {
 			{Name: "table", Weight: 1, Bubble: true, Run: func(e *Env) {
 				t := e.T
 				cfg := srvCfg{prop: "C09", nConns: t.Range(1, 3), nDialled: t.Draw(2), msgsPer: [2]int{2, 8}, parkPct: 20, answerPct: 20, table: true, rereg: true}
+				if t.Chance(1, 3) {
+					// messages whose command exists in no dictionary the message's application can use
+					// (unknown code; a code of another application, also of a "parent" one): nobody handles them
+					cfg.malformed, cfg.malformedOnly = true, []int{3, 9}
+				}
 				newSrvWorld(e, cfg).run()
 			}},
 		},
@@ -74,7 +79,7 @@ func init() {
 			}},
 			{Name: "sctp-faults", Weight: 1, Bubble: true, Run: c15Sctp},
 			{Name: "sweep-placement", Bubble: true, Run: c15Sweep, SweepN: c15SweepN, QuickSweep: true, Exhaustive: true,
-				SweepNote: "3 connections x 3 requests; one fault of each of 11 kinds (handler panic, reset mid-message, 9 kinds of undecodable message) at every (connection, position), with 0 or 3 temporary accept errors first; the delivery/release schedule of each case is seeded: 264 cases"},
+				SweepNote: "3 connections x 3 requests; one fault of each of 12 kinds (handler panic, reset mid-message, 10 kinds of undecodable message) at every (connection, position), with 0 or 3 temporary accept errors first; the delivery/release schedule of each case is seeded: 288 cases"},
 		},
 		MustProbes: []string{"late-connection", "malformed-reported", "recovered-panic-logged", "runtime-registration", "sctp-read-error", "long-accept-error-run", "default-serve-mux", "tls-handshake-stalled"},
 	})
@@ -86,7 +91,7 @@ func c16Tcp(e *Env) {
 	newSrvWorld(e, cfg).run()
 }
 
-func c15SweepN(thorough bool) int { return 3 * 4 * 11 * 2 }
+func c15SweepN(thorough bool) int { return 3 * 4 * 12 * 2 }
 
 func c15Sweep(e *Env) {
 	k := e.Case
@@ -95,8 +100,8 @@ func c15Sweep(e *Env) {
 	k /= 3
 	f.pos = k % 4
 	k /= 4
-	kind := k % 11
-	k /= 11
+	kind := k % 12
+	k /= 12
 	f.acceptErrs = k * 3
 	switch {
 	case kind == 0:
